@@ -308,3 +308,163 @@ Proof.
     + destruct (fmem Fsme c) eqn:Fs; [right; apply Ps; reflexivity|left]. exact (Lf Fsme Fs).
     + exists l. split; [exact Q|]. eapply Forall_impl; [|exact A]. intros x [X|X]; [left; apply Pw; exact X|right; exact X].
 Qed.
+
+Lemma In_hk_handlers k s : In k (hk s) <-> exists b, In (k, b) (handlers s).
+Proof.
+  unfold hk. rewrite in_map_iff. split.
+  - intros [[k' b] [E H]]. cbn in E. subst. exists b. exact H.
+  - intros [b H]. exists (k, b). split; [reflexivity|exact H].
+Qed.
+Lemma keep_hk c p s s' k : eff c p s s' -> fmem FhD c = false -> In k (hk s) -> In k (hk s').
+Proof.
+  intros E F H. apply In_hk_handlers in H as [b H]. apply In_hk_handlers. exists b. exact (ef_hkeep _ _ _ _ E F _ H).
+Qed.
+Lemma keep_evP c p s s' : eff c p s s' -> fmem FhD c = false -> fmem FidD c = false -> evP s -> evP s'.
+Proof.
+  intros E F1 F2 [[k [A B]]|[A|A]].
+  - left. exists k. split; [eapply keep_hk; eassumption|exact B].
+  - right. left. exact (ef_ikeep _ _ _ _ E F2 _ A).
+  - right. right. exact (ef_ikeep _ _ _ _ E F2 _ A).
+Qed.
+
+(* handler-level judgement: the invariant plus the local context (evidence of the post-authentication
+   phase if ev; the parser is inside a stream if po; never Connecting while handlers run) *)
+Definition Ctx (ev po : bool) (t : state) : Prop :=
+  (ev = true -> evP t) /\ (po = true -> ps t = POpen) /\ st t <> Connecting.
+Definition JT (ev po : bool) (t : state) : Prop := HInv t /\ Ctx ev po t.
+
+Lemma ctx_step ev po c p t t' :
+  eff c p t t' -> subl c cK = true -> fmem FhD c = false -> fmem FidD c = false -> Ctx ev po t -> Ctx ev po t'.
+Proof.
+  intros E Sub F1 F2 [A [B C]]. pose proof (subl_ok _ _ Sub) as W. repeat split.
+  - intro X. eapply keep_evP; eauto.
+  - intro X. assert (Y : fmem Fps (c ++ DISC) = false) by (rewrite fmem_app, (W Fps eq_refl); reflexivity).
+    pose proof (ef_U _ _ _ _ E Fps Y) as Z. cbn in Z. rewrite Z. auto.
+  - destruct (ef_st _ _ _ _ E) as [X|X]; rewrite X; [exact C|discriminate].
+Qed.
+
+Lemma jt_step ev po c p t t' :
+  JT ev po t -> eff c p t t' -> subl c cK = true -> fmem FhD c = false -> fmem FidD c = false ->
+  (forall x, pw p x -> benignE x) -> (forall k, pt p k -> k <> TMissingFeatures) ->
+  (forall k, ph p k -> is_posth k = true /\ ev = true) -> (forall i, pid p i -> ev = true) ->
+  (fmem Fsme c = true -> ev = true) ->
+  JT ev po t'.
+Proof.
+  intros [H C] E Sub F1 F2 Pw Pt Ph Pi Ps. split; [|eapply ctx_step; eassumption].
+  destruct C as [C1 _].
+  eapply hinv_mono; try eassumption.
+  - intros k X. destruct (Ph k X). auto.
+  - intros i X. eauto.
+  - intro X. auto.
+  - intros _ X. eapply keep_hk; eassumption.
+Qed.
+
+(* removing a handler / id handler / timer at the end of a visit *)
+Lemma hinv_del c p t t' :
+  HInv t -> eff c p t t' -> subl c cK = true -> fmem Fsme c = false ->
+  (forall k, ~ ph p k) -> (forall i, ~ pid p i) -> (forall k, ~ pt p k) -> (forall x, ~ pw p x) ->
+  (hasTMF t' -> hasF t -> hasF t') -> HInv t'.
+Proof.
+  intros H E Sub Fs Ph Pi Pt Pw H6. eapply hinv_mono; try eassumption.
+  - intros x X. destruct (Pw x X).
+  - intros k X. destruct (Pt k X).
+  - intros k X. destruct (Ph k X).
+  - intros i X. destruct (Pi i X).
+  - intro X. rewrite Fs in X. discriminate.
+Qed.
+
+(* ------------------------------------------------------------------ symbolic execution for JT *)
+Ltac destr_hyps :=
+  repeat match goal with
+         | H : _ \/ _ |- _ => destruct H
+         | H : exists _, _ |- _ => destruct H
+         | H : _ /\ _ |- _ => destruct H
+         end.
+Ltac pw_tac :=
+  cbn; let x := fresh "x" in let H := fresh "H" in intros x H; unfold benignE in *;
+  first [ exact H | contradiction
+        | destr_hyps; subst; cbn;
+          first [reflexivity | match goal with H' : fst (fst _) = _ |- _ => rewrite H' end; reflexivity] ].
+Ltac pt_tac := cbn; let k := fresh "k" in let H := fresh "H" in intros k H; try contradiction; destr_hyps; subst; discriminate.
+Ltac ph_tac := cbn; let k := fresh "k" in let H := fresh "H" in intros k H; try contradiction; destr_hyps; subst; split; reflexivity.
+Ltac pi_tac := cbn; let k := fresh "k" in let H := fresh "H" in intros k H; try contradiction; reflexivity.
+Ltac ps_tac := let X := fresh "X" in intro X; first [discriminate X | reflexivity].
+Ltac jstep L :=
+  eapply jt_step; [ | apply L | vm_compute; reflexivity | reflexivity | reflexivity | pw_tac | pt_tac | ph_tac | pi_tac | ps_tac ].
+Ltac jsetter t :=
+  first [ eapply (jt_step _ _ [] pnone t); [ | eff_frame | vm_compute; reflexivity | reflexivity | reflexivity | pw_tac | pt_tac | ph_tac | pi_tac | ps_tac ]
+        | eapply (jt_step _ _ [Fsme] pnone t); [ | eff_frame | vm_compute; reflexivity | reflexivity | reflexivity | pw_tac | pt_tac | ph_tac | pi_tac | ps_tac ] ].
+
+Ltac peelJ :=
+  match goal with
+  | H : JT ?a ?b ?t |- JT ?a ?b ?t => exact H
+  | |- JT _ _ (if _ then _ else _) => break_if
+  | |- JT _ _ (match _ with _ => _ end) => break_match
+  | |- JT _ _ (send_gated _ _ _ _) => jstep send_gated_eff
+  | |- JT _ _ (send_raw_m _ _ _ _) => jstep send_raw_m_eff
+  | |- JT _ _ (xmpp_disconnect _ _) => jstep xmpp_disconnect_eff
+  | |- JT _ _ (conn_open_stream _) => jstep conn_open_stream_eff
+  | |- JT _ _ (timed_add _ _ _) => jstep timed_add_eff
+  | |- JT _ _ (timed_reset_all _ _) => jstep (timed_reset_all_eff pnone)
+  | |- JT _ _ (timed_set_stamp _ _ _) => jstep (timed_set_stamp_eff pnone)
+  | |- JT _ _ (h_add _ _) => jstep h_add_eff
+  | |- JT _ _ (id_add _ _) => jstep id_add_eff
+  | |- JT _ _ (sm_queue_resend _) => jstep sm_queue_resend_eff
+  | |- JT _ _ (sm_queue_cleanup _ _) => jstep (sm_queue_cleanup_eff pnone)
+  | |- JT _ _ (sm_enable _) => jstep sm_enable_eff
+  | |- JT _ _ (session_start _ _) => jstep session_start_eff
+  | |- JT _ _ (upg _ _) => unfold upg
+  | |- JT _ _ (fst (conn_disconnect _)) => jstep (conn_disconnect_eff pnone)
+  | |- JT _ _ (fst (stream_negotiation_success _)) => jstep (stream_negotiation_success_eff pnone)
+  | |- JT _ _ (fst (do_bind _ _ _)) => jstep do_bind_eff
+  | |- JT _ _ (?f ?v ?t) => jsetter t
+  end.
+
+(* results *)
+Definition JR (ev po : bool) (r : R) : Prop := JT ev po (fst r).
+Definition J3 (ev po : bool) (r : state * emit * bool) : Prop := JT ev po (fst (fst r)).
+Lemma J3_let_st ev po v (B : state -> state * emit * bool) :
+  JT ev po v -> (forall x, JT ev po x -> J3 ev po (B x)) -> J3 ev po (let x := v in B x).
+Proof. intros A F. apply F. exact A. Qed.
+Lemma JR_let_st ev po v (B : state -> R) :
+  JT ev po v -> (forall x, JT ev po x -> JR ev po (B x)) -> JR ev po (let x := v in B x).
+Proof. intros A F. apply F. exact A. Qed.
+Lemma J3_bind ev po (r : R) (B : state -> emit -> state * emit * bool) :
+  JR ev po r -> (forall x o, JT ev po x -> J3 ev po (B x o)) -> J3 ev po (let '(x, o) := r in B x o).
+Proof. destruct r as [x o]. intros A F. apply F. exact A. Qed.
+Lemma JR_bind ev po (r : R) (B : state -> emit -> R) :
+  JR ev po r -> (forall x o, JT ev po x -> JR ev po (B x o)) -> JR ev po (let '(x, o) := r in B x o).
+Proof. destruct r as [x o]. intros A F. apply F. exact A. Qed.
+
+Ltac symJR :=
+  lazymatch goal with
+  | |- JR ?a ?b (let x := ?v in @?B x) =>
+      let ty := type of v in
+      lazymatch ty with
+      | state => apply (JR_let_st a b v B); [repeat peelJ|intros ? ?; cbv beta]
+      | _ => change (JR a b (B v)); cbv beta
+      end
+  | |- JR _ _ (ret _) => unfold JR, ret; cbn [fst]; repeat peelJ
+  | |- JR _ _ (if ?c then _ else _) => destruct c eqn:?
+  | |- JR ?a ?b (let '(x, o) := ?r in @?B x o) => apply (JR_bind a b r B); [|intros ? ? ?]
+  | |- JR _ _ (match ?x with _ => _ end) => destruct x eqn:?
+  | |- JR _ _ (_, _) => unfold JR; cbn [fst]; repeat peelJ
+  | |- JR _ _ _ => unfold JR; repeat peelJ
+  end.
+Ltac symJ3 :=
+  lazymatch goal with
+  | |- J3 ?a ?b (let x := ?v in @?B x) =>
+      let ty := type of v in
+      lazymatch ty with
+      | state => apply (J3_let_st a b v B); [repeat peelJ|intros ? ?; cbv beta]
+      | _ => change (J3 a b (B v)); cbv beta
+      end
+  | |- J3 _ _ (if ?c then _ else _) => destruct c eqn:?
+  | |- J3 ?a ?b (let '(x, o) := ?r in @?B x o) => apply (J3_bind a b r B); [repeat symJR|intros ? ? ?]
+  | |- J3 _ _ (match ?x with _ => _ end) => destruct x eqn:?
+  | |- J3 _ _ (_, _, _) => unfold J3; cbn [fst]; repeat peelJ
+  end.
+
+(* the stream-management handler: everything it does is harmless once HSm is registered *)
+Lemma call_HSm_J now e s : JT true true s -> J3 true true (call_handler HSm now e s).
+Proof. intro H. cbv beta iota delta [call_handler]. repeat symJ3. Qed.
